@@ -57,6 +57,26 @@ def case_history(case):
 
     realenv.reset_dirs()
     cps_mod.datetime = FakeDatetime
+    if case.get("tz"):
+        # the host's zone has daylight saving time and the history crosses its end: local wall-clock time goes backwards,
+        # run directory names must not
+        import time as _time
+
+        old_tz = os.environ.get("TZ")
+        os.environ["TZ"] = case["tz"]
+        _time.tzset()
+        try:
+            return _case_history(case, RG, realenv, _dt.datetime(2026, 10, 25, 0, 59, 57, tzinfo=_dt.timezone.utc))
+        finally:
+            if old_tz is None:
+                os.environ.pop("TZ", None)
+            else:
+                os.environ["TZ"] = old_tz
+            _time.tzset()
+    return _case_history(case, RG, realenv, BASE)
+
+
+def _case_history(case, RG, realenv, BASE):
     res = {"case": case, "disagree": [], "oracle": []}
     recs = [["a", "b"], ["1", "x"], ["2", "y"], ["3", "x"]]
     paths = {"alpha": ['~ id: keep ~ $[*][#b == "x"]', '$[1*][@n = count() yes()]'],
